@@ -79,6 +79,14 @@ pub fn run(a: &Args) {
             let hex: String = p.bytes().map(|b| format!("{b:02x}")).collect(); let pages = (f.bytes.len() as u64 - f.offset + 4095) / 4096;
             lines.push(format!("filex {hex} {} {pages} {}", f.offset, f.perms)); }
         let hex: String = shm_path.bytes().map(|b| format!("{b:02x}")).collect(); lines.push(format!("filex {hex} 0 2 r-x"));
+        // every other case: an anonymous mapping and a file-backed module BELOW the executable, so that the module
+        // holding the program entry point is not the first line of the memory map
+        if case % 2 == 0 {
+            lines.push("anonat 10000000 1 rw-".to_string());
+            let hex: String = paths[0].bytes().map(|b| format!("{b:02x}")).collect();
+            lines.push(format!("filexat 20000000 {hex} 0 1 r-x"));
+            out.count("layout.modules_below_executable");
+        }
         let scen = Scenario { threads: vec![], lines };
         let target = match Target::spawn(&scen, &work) { Ok(t) => t, Err(e) => { out.notes.push(format!("spawn failed: {e}")); continue; } };
         for (f, p) in files.iter().zip(&paths) { if f.delete { let _ = std::fs::remove_file(p); } }
